@@ -33,6 +33,7 @@ type zzWorldT struct {
 var zzW *zzWorldT
 
 func zzWorldCleanup() {
+	zzPipedSet = false
 	if zzSavedRand != nil {
 		rand.Reader = zzSavedRand
 	}
@@ -115,7 +116,7 @@ func zzWorldInit(g *Graph) string {
 	// result files the scenario says exist
 	if vals["world.resultpath.bad"] == "false" {
 		for k, v := range vals {
-			if strings.HasSuffix(k, "resultpath") || strings.HasSuffix(k, "result_path") || strings.HasSuffix(k, "ResultPath") {
+			if strings.HasSuffix(k, "resultpath") || strings.HasSuffix(k, "result_path") || strings.HasSuffix(k, "ResultPath") || strings.HasSuffix(k, "ResultPathFlag") {
 				if v != "" && !filepath.IsAbs(v) {
 					p := filepath.Join(root, v)
 					os.MkdirAll(filepath.Dir(p), 0755)
@@ -127,8 +128,17 @@ func zzWorldInit(g *Graph) string {
 	return root
 }
 
+var zzPipedSet, zzPiped bool
+
+// zzStdinPiped fixes what stdinIsPiped() will observe (a regular file vs /dev/null).
+func zzStdinPiped(b bool) { zzPipedSet, zzPiped = true, b }
+
 func zzSetStdin(content []byte) {
-	if zzLoad().Values["world.stdinIsPiped"] != "true" {
+	piped := zzLoad().Values["world.stdinIsPiped"] == "true"
+	if zzPipedSet {
+		piped = zzPiped
+	}
+	if !piped {
 		return // stays /dev/null: a character device, i.e. "not piped"
 	}
 	p := filepath.Join(zzW.root, "zz-stdin")
